@@ -47,6 +47,9 @@ pub enum QOp {
     Snapshot,
     /// `dst.clone_from(&builder)` into an existing builder holding this many symbols; continue on `dst`
     CloneFrom(usize),
+    /// `extend` from a source that fails (panic caught by the caller, who keeps using the builder) or that
+    /// reports its end before it is exhausted
+    ExtendFaulty(IntTy, Vec<Sym>, SourceFault),
 }
 
 #[derive(Clone, Debug, PartialEq, Serialize, Deserialize)]
@@ -56,6 +59,12 @@ pub enum QInit {
     BuilderFromIter(IntTy, Vec<Sym>),
     /// `QVector::from_iter` directly; `ops` are ignored
     VectorFromIter(IntTy, Vec<Sym>),
+    /// `QVector::from_iter` from a source that reports its end after `j` values although it could go on
+    VectorFromBursts(IntTy, Vec<Sym>, usize),
+    /// `QVectorBuilder::default()`
+    BuilderDefault,
+    /// `QVector::default()`; `ops` are ignored
+    VectorDefault,
 }
 
 #[derive(Clone, Debug, PartialEq, Serialize, Deserialize)]
@@ -103,7 +112,19 @@ fn gen_count(rng: &mut Rng) -> usize {
 
 pub fn gen_case(run_seed: u64, _tier: Tier) -> QvbCase {
     let mut rng = stream(run_seed, "workload");
-    let init = match rng.below(6) {
+    let init = match rng.below(60) {
+        56 | 57 => {
+            let ty = *rng.pick(&INT_TYS);
+            let n = gen_count(&mut rng).max(1);
+            let j = match rng.below(3) {
+                0 => (n / 256) * 256,
+                _ => rng.usize_below(n + 1),
+            };
+            QInit::VectorFromBursts(ty, gen_vals(&mut rng, ty, n), j.min(n))
+        }
+        58 => QInit::BuilderDefault,
+        59 => QInit::VectorDefault,
+        x => match x % 6 {
         0 | 1 => QInit::New,
         2 => QInit::WithCapacity(gen_count(&mut rng)),
         3 => {
@@ -116,6 +137,7 @@ pub fn gen_case(run_seed: u64, _tier: Tier) -> QvbCase {
             let n = gen_count(&mut rng);
             QInit::VectorFromIter(ty, gen_vals(&mut rng, ty, n))
         }
+        },
     };
     let n_ops = rng.urange(0, 30);
     let push_heavy = rng.chance(1, 3);
@@ -128,6 +150,15 @@ pub fn gen_case(run_seed: u64, _tier: Tier) -> QvbCase {
             }
             2 => QOp::Clone,
             3 => QOp::Snapshot,
+            5 if rng.chance(1, 3) => {
+                let ty = *rng.pick(&INT_TYS);
+                let n = gen_count(&mut rng).max(1);
+                let j = match rng.below(3) {
+                    0 => ((n / 256) * 256).min(n),
+                    _ => rng.usize_below(n + 1),
+                };
+                QOp::ExtendFaulty(ty, gen_vals(&mut rng, ty, n), if rng.bool() { SourceFault::PanicAfter(j) } else { SourceFault::NoneAfter(j) })
+            }
             4 if rng.bool() => QOp::CloneFrom(*rng.pick(&[0usize, 1, 255, 256, 257, 300, 512, 513, 700, 1100])),
             _ => QOp::Push(rng.below(256) as u8),
         })
@@ -135,7 +166,7 @@ pub fn gen_case(run_seed: u64, _tier: Tier) -> QvbCase {
     QvbCase { init, ops }
 }
 
-use crate::core::Hinted;
+use crate::core::{FaultySource, Hinted, SourceFault, SOURCE_FAULT_MARK};
 
 macro_rules! with_ty {
     ($ty:expr, $vals:expr, |$it:ident| $body:expr) => {
@@ -380,6 +411,28 @@ pub fn exec(case: &QvbCase) -> RunOut {
     let mut digest = Digest::default();
     let low2 = |vals: &Vec<Sym>| -> Vec<u8> { vals.iter().map(|s| (s.0 & 3) as u8).collect() };
     let mut m: Vec<u8> = vec![];
+    if case.init == QInit::VectorDefault {
+        out.count("init.VectorDefault", 1);
+        match catch(QVector::default) {
+            Ok(qv) => observe(&qv, &m, "QVector::default()", &mut out, &mut digest),
+            Err(msg) => out.violate(sig("default", panic_kind(&msg), "general"), format!("QVector::default() panicked: {msg}")),
+        }
+        out.digest = digest.0;
+        return out;
+    }
+    if let QInit::VectorFromBursts(ty, vals, j) = &case.init {
+        let j = (*j).min(vals.len());
+        m = low2(&vals[..j].to_vec());
+        out.count("init.VectorFromBursts", 1);
+        out.count("source_fault.none_before_exhaustion", 1);
+        match catch(|| with_ty!(*ty, vals, |it| FaultySource::new(it, SourceFault::NoneAfter(j)).collect::<QVector>())) {
+            Ok(qv) => observe(&qv, &m, "QVector::from_iter (source ends after its first burst)", &mut out, &mut digest),
+            Err(msg) => out.violate(sig("from_iter", panic_kind(&msg), "general"), format!("QVector::from_iter over a source that ends after {j} of {} values panicked: {msg}", vals.len())),
+        }
+        out.nontrivial = m.len() >= 2;
+        out.digest = digest.0;
+        return out;
+    }
     if let QInit::VectorFromIter(ty, vals) = &case.init {
         m = low2(vals);
         out.count("init.VectorFromIter", 1);
@@ -406,7 +459,8 @@ pub fn exec(case: &QvbCase) -> RunOut {
             let style = (vals.len() % 6) as u8;
             with_ty!(*ty, vals, |it| Hinted { inner: it, style }.collect::<QVectorBuilder>())
         }
-        QInit::VectorFromIter(..) => unreachable!(),
+        QInit::BuilderDefault => QVectorBuilder::default(),
+        QInit::VectorFromIter(..) | QInit::VectorDefault | QInit::VectorFromBursts(..) => unreachable!(),
     });
     if let QInit::BuilderFromIter(_, vals) = &case.init {
         m = low2(vals);
@@ -422,6 +476,55 @@ pub fn exec(case: &QvbCase) -> RunOut {
     let mut fp = Digest::default();
     for (k, op) in case.ops.iter().enumerate() {
         let before = m.len();
+        if let QOp::ExtendFaulty(ty, vals, fault) = op {
+            out.count("op.extend_faulty", 1);
+            fp.u64(6);
+            let all = low2(vals);
+            let r = catch(|| with_ty!(*ty, vals, |it| b.extend(FaultySource::new(it, *fault))));
+            match (fault, r) {
+                (SourceFault::NoneAfter(j), Ok(())) => {
+                    out.count("source_fault.none_before_exhaustion", 1);
+                    m.extend(&all[..(*j).min(all.len())]);
+                }
+                (SourceFault::PanicAfter(j), Err(msg)) if msg.contains(SOURCE_FAULT_MARK) => {
+                    out.count("source_fault.panic", 1);
+                    // the builder survived a failed extend: it holds what it held before plus some prefix of the
+                    // values the source yielded before failing (which prefix is the builder's choice)
+                    let j = (*j).min(all.len());
+                    match catch(|| b.clone().build()) {
+                        Ok(qv) => {
+                            let l = qv.len();
+                            if l < before || l > before + j {
+                                out.violate(
+                                    sig("extend_interrupted", "wrong_value", "general"),
+                                    format!("step {k}: after an extend whose source failed after {j} values the builder holds {l} symbols; it held {before} before"),
+                                );
+                                break;
+                            }
+                            m.extend(&all[..l - before]);
+                            observe(&qv, &m, &format!("after the interrupted extend at step {k}"), &mut out, &mut digest);
+                        }
+                        Err(msg) => {
+                            out.violate(sig("build", panic_kind(&msg), "general"), format!("step {k}: clone().build() after an interrupted extend panicked: {msg}"));
+                            break;
+                        }
+                    }
+                }
+                (SourceFault::PanicAfter(j), Ok(())) if *j >= all.len() => {
+                    // the source was never asked for value number j: nothing failed
+                    m.extend(&all);
+                }
+                (_, Ok(())) => {
+                    out.violate(sig("extend_interrupted", "fault_swallowed", "general"), format!("step {k}: extend returned normally although its source panicked"));
+                    break;
+                }
+                (_, Err(msg)) => {
+                    out.violate(sig("mutate", panic_kind(&msg), "general"), format!("step {k}: extend from a faulty source ({fault:?}) panicked: {msg}"));
+                    break;
+                }
+            }
+            continue;
+        }
         let res = catch(|| {
             let mut y = std::mem::take(&mut b);
             match op {
@@ -440,6 +543,7 @@ pub fn exec(case: &QvbCase) -> RunOut {
                     dst.clone_from(&y);
                     y = dst;
                 }
+                QOp::ExtendFaulty(..) => unreachable!(),
             }
             y
         });
@@ -470,6 +574,7 @@ pub fn exec(case: &QvbCase) -> RunOut {
                 out.count("op.clone_from", 1);
                 fp.u64(5);
             }
+            QOp::ExtendFaulty(..) => unreachable!(),
             QOp::Snapshot => {
                 out.count("op.snapshot", 1);
                 fp.u64(4);
